@@ -610,8 +610,8 @@ def one_sample(x, y=None, reps=10**5, stat='mean', alternative="greater",
         dist = []
         for i in range(reps):
             dist.append(tst_fun(z * (1 - 2 * prng.randint(0, 2, n))))
-        pUp = np.sum(dist >= tst)/(reps + plus1)
-        pDn = np.sum(dist <= tst)/(reps + plus1)
+        pUp = np.sum(np.array(dist) >= tst)/(reps + plus1)
+        pDn = np.sum(np.array(dist) <= tst)/(reps + plus1)
         return thePvalue[alternative](pUp, pDn), tst, dist
     else:
         hitsUp = 0
